@@ -25,7 +25,10 @@ EXPLANATION = (
     "total_width // n per element of the outermost dimension; R-C12-mangle -- every port / wire / connection / behavioural "
     "generator mangles parent__child with the same separator; R-C12-index-order -- recursive array generators build the wire "
     "index in the order of the declared wire's dimensions and of the indices in the flat name; R-C12-deq -- nested literals do not "
-    "queue their own expression record; R-C12-wire-forms -- whoever declares packed and per-field forms of a signal also emits the "
+    "queue their own expression record, every amending operation addresses the record at the end where records are queued "
+    "(evaluated for 1 / 2 / 3 queued records) and the connection removes from the other end; R-tr-rtype-eq, R-tr-port-skip and "
+    "R-tr-dims-elem as in C03 (RTLIR type equality admits only identically declared array elements; gen_mapped_ports skips clk / "
+    "reset exactly as asked; a dimension list and the type handed on with it describe the same array, on a [2][3] array); R-C12-wire-forms -- whoever declares packed and per-field forms of a signal also emits the "
     "assigns between them. "
     "NOT decided: cycle-for-cycle equivalence of arbitrary designs, syntactic validity of arbitrary emitted text, single driver per "
     "variable of the emitted text (in particular the number of assigns generated per flat leaf of nested struct outputs), the port "
@@ -43,7 +46,7 @@ ASSUMPTIONS = [
 _SHARED = (T.rule_hooks, T.rule_handlers, T.rule_optable, T.rule_assign, T.rule_slice, T.rule_width_cast, T.rule_conn,
            T.rule_sigexpr, T.rule_for, T.rule_modname, T.rule_constcache, T.rule_layout, T.rule_index_queue, T.rule_dedup_scope,
            T.rule_loop_state, T.rule_memo_scope, T.rule_ident_intact, T.rule_name_scope, T.rule_const_inline,
-           T.rule_ifc_source, T.rule_range_args, T.rule_block_state)
+           T.rule_ifc_source, T.rule_range_args, T.rule_block_state, T.rule_rtype_eq, T.rule_port_skip, T.rule_dims_elem)
 RULES = [partial(f, backend=BACKEND) for f in _SHARED]
 for _f, _g in zip(RULES, _SHARED):
     _f.__name__ = _g.__name__
@@ -82,6 +85,28 @@ def _m(name, file, old, new, rule=None, count=1):
 
 
 MUTANTS = [
+    dict(name='subcomp-wire-continue-guard-forgets-marker', rule='R-C12-wire-forms', edits=[
+        dict(file=YS4, old="      if c_n_dim or n_dim or \"present\" in wire:\n        wire_decls.append( wire_template.format( **locals() ) )\n",
+             new="      if not ( c_n_dim or n_dim ):\n        continue\n      wire_decls.append( wire_template.format( **locals() ) )\n", count=1)]),
+    # round-7 kinds: boundary slip / wrong one of two similar names / and-or-not slip / wrong similar API
+    _m('interface-view-eq-name-only', T.RTYPE, "    return isinstance(other, InterfaceView) and s.name == other.name and \\\n           s.properties == other.properties", "    return isinstance(other, InterfaceView) and s.name == other.name", 'R-tr-rtype-eq'),
+    _m('interface-view-eq-name-or-ports', T.RTYPE, "    return isinstance(other, InterfaceView) and s.name == other.name and \\\n           s.properties == other.properties", "    return isinstance(other, InterfaceView) and s.name == other.name or \\\n           s.properties == other.properties", 'R-tr-rtype-eq'),
+    _m('component-eq-length-or-ports', T.RTYPE, "    return (len(u)==len(v)) and all(_u == _v for _u, _v in zip(u, v))", "    return (len(u)==len(v)) or all(_u == _v for _u, _v in zip(u, v))", 'R-tr-rtype-eq'),
+    _m('component-eq-ignores-length', T.RTYPE, "    return (len(u)==len(v)) and all(_u == _v for _u, _v in zip(u, v))", "    return all(_u == _v for _u, _v in zip(u, v))", 'R-tr-rtype-eq'),
+    _m('component-eq-any-port', T.RTYPE, "    return (len(u)==len(v)) and all(_u == _v for _u, _v in zip(u, v))", "    return (len(u)==len(v)) and any(_u == _v for _u, _v in zip(u, v))", 'R-tr-rtype-eq'),
+    _m('array-eq-ignores-dimensions', T.RTYPE, "    if s.dim_sizes != other.dim_sizes: return False\n", "", 'R-tr-rtype-eq'),
+    _m('port-eq-direction-or-dtype', T.RTYPE, "    return isinstance(other, Port) and s.dtype == other.dtype and \\\n           s.direction == other.direction", "    return isinstance(other, Port) and s.dtype == other.dtype or \\\n           s.direction == other.direction", 'R-tr-rtype-eq'),
+    _m('clk-reset-skips-merged', T.YS_UTIL, "    if not has_clk and name == 'clk':      continue\n    if not has_reset and name == 'reset':  continue\n", "    if name in ( 'clk', 'reset' ) and not ( has_clk and has_reset ):  continue\n", 'R-tr-port-skip', count=1),
+    _m('reset-skip-tests-has-clk', T.YS_UTIL, "    if not has_reset and name == 'reset':  continue\n", "    if not has_clk and name == 'reset':  continue\n", 'R-tr-port-skip'),
+    _m('clk-skipped-when-present', T.YS_UTIL, "    if not has_clk and name == 'clk':      continue\n", "    if has_clk and name == 'clk':      continue\n", 'R-tr-port-skip'),
+    _m('packed-index-amends-oldest-record', YS2, "    s.deq[-1]['s_index'] += \"[{}]\"\n    s.deq[-1]['index'].append( int(index) )\n    return f'{base_signal}[{index}]'\n\n  def rtlir_tr_struct_attr",
+       "    s.deq[0]['s_index'] += \"[{}]\"\n    s.deq[0]['index'].append( int(index) )\n    return f'{base_signal}[{index}]'\n\n  def rtlir_tr_struct_attr", 'R-C12-deq'),
+    _m('struct-attr-amends-oldest-record', YS2, "    s.deq[-1]['s_attr'] += \"__{}\"\n    s.deq[-1]['attr'].append( attr )\n    return f'{base_signal}.{attr}'", "    s.deq[0]['s_attr'] += \"__{}\"\n    s.deq[-1]['attr'].append( attr )\n    return f'{base_signal}.{attr}'", 'R-C12-deq'),
+    _m('comp-attr-amends-second-newest-record', YS1, "    s.deq[-1]['s_attr'] = attr", "    s.deq[-2]['s_attr'] = attr", 'R-C12-deq'),
+    _m('connection-takes-newest-record-first', YS1, "    # First assemble the WR signal\n    sexp = s.deq.popleft()", "    # First assemble the WR signal\n    sexp = s.deq.pop()", 'R-C12-deq'),
+    _m('packed-conn-peels-one-dimension', YS2, "    n_dim = _dtype.get_dim_sizes()\n    dtype = _dtype.get_sub_dtype()\n    return s._packed_conn_gen( d, pid, wid, idx, n_dim, dtype )", "    n_dim = _dtype.get_dim_sizes()\n    dtype = _dtype.get_next_dim_type()\n    return s._packed_conn_gen( d, pid, wid, idx, n_dim, dtype )", 'R-tr-dims-elem'),
+    _m('packed-port-peels-one-dimension', YS2, "    n_dim = _dtype.get_dim_sizes()\n    dtype = _dtype.get_sub_dtype()\n    return s._packed_gen( d, id_, n_dim, dtype )", "    n_dim = _dtype.get_dim_sizes()\n    dtype = _dtype.get_next_dim_type()\n    return s._packed_gen( d, id_, n_dim, dtype )", 'R-tr-dims-elem'),
+    _m('packed-wire-peels-one-dimension', YS2, "    _n_dim = _dtype.get_dim_sizes()\n    dtype = _dtype.get_sub_dtype()", "    _n_dim = _dtype.get_dim_sizes()\n    dtype = _dtype.get_next_dim_type()", 'R-tr-dims-elem'),
     # R-C12-flatten
     _m('leaf-slice-msb-off-by-one', YS2, "msb, lsb = c_nbits-1, c_nbits-nbits", "msb, lsb = c_nbits, c_nbits-nbits", 'R-C12-flatten'),
     _m('leaf-slice-lsb-off-by-one', YS2, "msb, lsb = c_nbits-1, c_nbits-nbits", "msb, lsb = c_nbits-1, c_nbits-nbits+1", 'R-C12-flatten'),
@@ -246,6 +271,20 @@ MUTANTS = [
 ]
 
 EQUIV = [
+    dict(name='subcomp-filters-as-continue-guards', edits=[
+        dict(file=YS4, old="      if c_n_dim or n_dim or \"present\" in wire:\n        wire_decls.append( wire_template.format( **locals() ) )\n",
+             new="      if not ( c_n_dim or n_dim or \"present\" in wire ):\n        continue\n      wire_decls.append( wire_template.format( **locals() ) )\n", count=1),
+        dict(file=YS4, old="      if c_n_dim or idx or \"present\" in _conn:\n        connections += _subcomp_conn_gen( d, c_id, pid, c_id, wid, idx, c_n_dim )\n",
+             new="      if not c_n_dim and not idx and \"present\" not in _conn:\n        continue\n      connections += _subcomp_conn_gen( d, c_id, pid, c_id, wid, idx, c_n_dim )\n", count=1)]),
+    _m('component-eq-compares-the-lists', T.RTYPE, "    return (len(u)==len(v)) and all(_u == _v for _u, _v in zip(u, v))", "    return list(u) == list(v)"),
+    _m('component-eq-early-return-on-length', T.RTYPE, "    return (len(u)==len(v)) and all(_u == _v for _u, _v in zip(u, v))", "    if len(u) != len(v):\n      return False\n    for _u, _v in zip(u, v):\n      if _u != _v:\n        return False\n    return True"),
+    _m('array-eq-single-expression', T.RTYPE, "    if not isinstance( other, Array ): return False\n    if s.dim_sizes != other.dim_sizes: return False\n    return s.sub_type == other.sub_type", "    return isinstance( other, Array ) and s.dim_sizes == other.dim_sizes and s.sub_type == other.sub_type"),
+    _m('clk-reset-skip-as-one-condition', T.YS_UTIL, "    if not has_clk and name == 'clk':      continue\n    if not has_reset and name == 'reset':  continue\n", "    if ( name == 'clk' and not has_clk ) or ( name == 'reset' and not has_reset ):\n      continue\n"),
+    _m('clk-reset-skip-via-table', T.YS_UTIL, "    if not has_clk and name == 'clk':      continue\n    if not has_reset and name == 'reset':  continue\n", "    wanted = { 'clk' : has_clk, 'reset' : has_reset }\n    if name in wanted and not wanted[ name ]:\n      continue\n"),
+    _m('packed-index-amends-record-by-length', YS2, "    s.deq[-1]['s_index'] += \"[{}]\"\n    s.deq[-1]['index'].append( int(index) )\n    return f'{base_signal}[{index}]'\n\n  def rtlir_tr_struct_attr",
+       "    s.deq[len(s.deq)-1]['s_index'] += \"[{}]\"\n    s.deq[len(s.deq)-1]['index'].append( int(index) )\n    return f'{base_signal}[{index}]'\n\n  def rtlir_tr_struct_attr"),
+    _m('struct-attr-amends-record-via-local', YS2, "    s.deq[-1]['s_attr'] += \"__{}\"\n    s.deq[-1]['attr'].append( attr )\n    return f'{base_signal}.{attr}'", "    rec = s.deq[-1]\n    rec['s_attr'] += \"__{}\"\n    rec['attr'].append( attr )\n    return f'{base_signal}.{attr}'"),
+    _m('packed-conn-accessors-inline', YS2, "    n_dim = _dtype.get_dim_sizes()\n    dtype = _dtype.get_sub_dtype()\n    return s._packed_conn_gen( d, pid, wid, idx, n_dim, dtype )", "    return s._packed_conn_gen( d, pid, wid, idx, _dtype.get_dim_sizes(), _dtype.get_sub_dtype() )"),
     _m('count-stmts-as-accumulator-loop', T.SV_B[2], "    return sum( len( stmt.targets ) if isinstance( stmt, bir.Assign ) else 1\n                for stmt in stmts )",
        "    n_stmts = 0\n    for stmt in stmts:\n      if isinstance( stmt, bir.Assign ):\n        n_stmts += len( stmt.targets )\n      else:\n        n_stmts += 1\n    return n_stmts"),
     _m('literal-helper-wraps-by-modulo', UTIL, "  if value < 0:\n    value += 1 << nbits\n", "  value %= 1 << nbits\n"),
